@@ -359,11 +359,11 @@ func VerifC12_ChannelUpdate() {
 	st := c12Stores(kv, root)
 	ctx := context.Background()
 	// stored state: two channels with arbitrary times / dropped flags in all three maps
-	chA, chB := "chA", "chB"
+	chA, chB := "ka", "kb" // letters of the check's string alphabet, so that the symbolic channel of the update can hit them
 	stored := &meta.TaskCollectionPosition{TaskID: task, CollectionID: coll, CollectionName: "c",
 		Positions:       map[string]*meta.PositionInfo{chA: c12Pos("pA"), chB: c12Pos("pB")},
 		OpPositions:     map[string]*meta.PositionInfo{chA: c12Pos("oA"), chB: c12Pos("oB")},
-		TargetPositions: map[string]*meta.PositionInfo{"tA": c12Pos("tA"), "tB": c12Pos("tB")},
+		TargetPositions: map[string]*meta.PositionInfo{"ta": c12Pos("tA"), "tb": c12Pos("tB")},
 	}
 	if vBool("freezeFirst") {
 		vAssert(st.taskCollectionPositionStore.Put(ctx, stored, nil) == nil, "C12.seed")
